@@ -7,7 +7,8 @@
 (*   k = "norm"    as_list / as_tuple applied once and twice                                   *)
 (*   k = "waiter"  one schedule: the structure, the results, the order in which the driver     *)
 (*                 released the awaitables (coroutines are un-started when handed over and may *)
-(*                 wait for another one to start), which coroutines were running before the    *)
+(*                 wait for another one to start; awaitables of every kind of Lift.tla, and    *)
+(*                 non-awaitable look-alikes), which coroutines / objects were running before the *)
 (*                 first release, whether the waiter task was done before each release and     *)
 (*                 after the last one, and what it returned                                    *)
 (* with the encoded outcome (a value or <<"exc", class>>).  Verdict(o) = "" when the           *)
@@ -58,19 +59,26 @@ VNorm(o) ==
         ELSE IF o.twice # o.once THEN "as_tuple_idempotent"
         ELSE IF ~StarArgsCorner(o.x) /\ o.once # AsTuple(o.x) THEN "as_tuple_value" ELSE ""
 
+\* o.order is the order in which the driver released the awaitables that need a release (GatedIds:
+\* every kind but the NowKinds, which nobody releases); o.started the LazyKinds awaitables - coroutines
+\* and plain objects with __await__ - that had taken their first step before the first release
 VWaiter(o) ==
-    LET ids == AwIds(o.tree)
-        n   == Len(o.order)
-        Vf  == [i \in ids |-> o.vals[CHOOSE k \in 1..Len(o.vals) : o.vals[k][1] = i][2]]
-    IN  IF {o.order[k] : k \in 1..n} # ids \/ n # Cardinality(ids) \/ Len(o.done) # n + 1 THEN "harness_schedule"
+    LET ids   == AwIds(o.tree)
+        gated == GatedIds(o.tree)
+        n     == Len(o.order)
+        Vf    == [i \in ids |-> o.vals[CHOOSE k \in 1..Len(o.vals) : o.vals[k][1] = i][2]]
+    IN  IF ~AwWellFormed(o.tree) \/ LegacyKinds \cap {AwKind(a) : a \in AwLeaves(o.tree)} # {} THEN "harness_kinds"
+        ELSE IF {o.order[k] : k \in 1..n} # gated \/ n # Cardinality(gated) \/ Len(o.done) # n + 1 THEN "harness_schedule"
         ELSE IF \E k \in 1..n : o.done[k] THEN "waiter_returned_early"          \* done[k]: after k-1 completions
         \* every awaitable has been released and the loop stepped: waiter must be back
         ELSE IF ~o.done[n + 1] THEN "waiter_never_returns"
-        \* the law: once waiter has been called every awaitable is running - o.started are the
-        \* coroutines that had taken their first step before the driver released anything
-        ELSE IF {o.started[k] : k \in 1..Len(o.started)} # CoroIds(o.tree) THEN "waiter_not_all_started"
-        ELSE IF o.out # RunOrder(o.tree, o.order, 1, Vf) THEN
-                 (IF IsExc(o.out) THEN "waiter_raised" ELSE IF ~SameShape(o.tree, o.out) THEN "waiter_shape" ELSE "waiter_result")
+        \* "every awaitable replaced": whatever its kind, no awaitable is left in what came back
+        ELSE IF ~IsExc(o.out) /\ AwLeaves(o.out) # {} THEN "waiter_awaitable_left"
+        \* the law: once waiter has been called every awaitable is running
+        ELSE IF {o.started[k] : k \in 1..Len(o.started)} # LazyIds(o.tree) THEN "waiter_not_all_started"
+        ELSE IF o.out # Schedule(o.tree, o.order, Vf) THEN
+                 (IF IsExc(o.out) THEN "waiter_raised" ELSE IF ~SameShape(o.tree, o.out) THEN "waiter_shape"
+                  ELSE IF LookLeaves(o.out) # LookLeaves(o.tree) THEN "waiter_lookalike_touched" ELSE "waiter_result")
         ELSE IF o.out # Subst(o.tree, ids, Vf) THEN "waiter_order_dependent"
         ELSE ""
 
